@@ -326,6 +326,41 @@ func corpusC07() []*scen.Scenario {
 	mkTyped("kc07typedconv", []scen.Notation{scen.N("conv", "cvT", "X", "Y")}, []string{cvT}, []string{"cvT"}, []string{"cvT"}, "")
 	mkTyped("kc07typedgetter", []scen.Notation{scen.N("map", "GetY()", "Y")}, nil, nil, []string{"A.GetY"}, "")
 	mkTyped("kc07typedhook", []scen.Notation{scen.N("postprocess", "postT")}, []string{postT}, []string{"postT"}, []string{"postT"}, "postT")
+	// a method WITHOUT error result that carries BOTH hooks, only one of which returns an error (each hook is
+	// checked against the method, not just the first one)
+	for _, k := range []string{"posterr", "preerr"} {
+		id := "kc07twohooks" + k
+		b := scen.NewBuilder(nil, scen.Profile{}, id, id)
+		b.Struct("", "A", "X int")
+		b.Struct("", "B", "X int")
+		quiet := "func hookQ(d *B, s *A) {\n\tvtr.Enter(\"hookQ\", d, s)\n}\n"
+		loud := "func hookE(d *B, s *A) error {\n\tvtr.Enter(\"hookE\", d, s)\n\tif vtr.Fail(\"hookE\") {\n\t\treturn vtr.ErrOf(\"hookE\")\n\t}\n\treturn nil\n}\n"
+		b.Func(quiet, true, "hookQ")
+		b.Func(loud, true, "hookE")
+		m := &scen.Method{Name: "TwoHooks", Src: scen.Param{Type: "*A"}, Dst: scen.Param{Type: "*B"}, ErrSites: []string{"hookE"}}
+		if k == "posterr" {
+			m.Notations = []scen.Notation{scen.N("preprocess", "hookQ"), scen.N("postprocess", "hookE")}
+			m.PreSite, m.PostSite = "hookQ", "hookE"
+		} else {
+			m.Notations = []scen.Notation{scen.N("preprocess", "hookE"), scen.N("postprocess", "hookQ")}
+			m.PreSite, m.PostSite = "hookE", "hookQ"
+		}
+		s := b.Manual(m)
+		s.InConv = false
+		out = append(out, s)
+	}
+	// an error-returning converter that takes its argument BY ADDRESS (func(*T) (U, error), source field of type T),
+	// in a method without error result
+	{
+		b := scen.NewBuilder(nil, scen.Profile{}, "kc07addrconv", "kc07addrconv")
+		b.Struct("", "A", "X int", "Raw int")
+		b.Struct("", "B", "X int", "When int64")
+		b.Func("func cvPE(p *int) (int64, error) {\n\tvtr.Enter(\"cvPE\", *p)\n\tif vtr.Fail(\"cvPE\") {\n\t\treturn 0, vtr.ErrOf(\"cvPE\")\n\t}\n\treturn int64(*p), nil\n}\n", true, "cvPE")
+		m := &scen.Method{Name: "AddrConv", Src: scen.Param{Type: "*A"}, Dst: scen.Param{Type: "*B"}, Notations: []scen.Notation{scen.N("conv", "cvPE", "Raw", "When")}, ErrSites: []string{"cvPE"}}
+		s := b.Manual(m)
+		s.InConv = false
+		out = append(out, s)
+	}
 	// :getter name matching must not pick a getter that returns (T, error) in a method without error result
 	{
 		b := scen.NewBuilder(nil, scen.Profile{}, "kc07namegetter", "kc07namegetter")
